@@ -425,6 +425,12 @@ def subscript(I, obj, idx, node):
             i = I.norm_index(n, idx, node)
             if n == 0:
                 raise sx.SymRaise(IndexError, sx._txt(node))
+            if not all(is_num(x) or isinstance(x, tuple) for x in obj):
+                # elements that cannot be merged by if-then-else (byte strings, objects): fork per index
+                for j in range(n - 1):
+                    if I.ctx.branch(i == j):
+                        return obj[j]
+                return obj[n - 1]
             r = obj[n - 1]
             for j in reversed(range(n - 1)):
                 r = L.If(i == j, obj[j], r)
@@ -545,7 +551,17 @@ def sym_range(I, args):
     if not L.any_z3(lo, hi, st):
         return range(lo, hi, st)
     if L.is_z3(st):
-        raise SymError("range with symbolic step sign")
+        ctx = I.ctx
+        ctx.solver.push()
+        ctx.solver.add(st <= 0)
+        r = ctx._check()
+        ctx.solver.pop()
+        if r != z3.unsat:
+            raise SymError("range with a symbolic step that is not provably positive")
+        d = L.to_z3(hi) - L.to_z3(lo)
+        ln = z3.If(d > 0, (d + st - 1) / st, 0)
+        cont = lambda v: L.And(L.le(lo, v), L.lt(v, hi), L.eq(L.mod(v - lo, st), 0))
+        return SIter(ln, lambda k: lo + k * st, "range", contains=cont)
     if st == 0:
         raise _sx().SymRaise(ValueError, "range step 0")
     if st > 0:
@@ -764,4 +780,6 @@ def apply_contract(I, c, args, kwargs, node):
     for cname, fn in c.ensures:
         ctx.assume(c.apply(fn, env))
     ctx.last_result = result
+    if getattr(c, "traced", False):
+        I.trace[-1][1]["__result__"] = result
     return result
